@@ -30,11 +30,20 @@ func RenameBlankIdentifier(sig *types.Signature) *types.Signature {
 // RenameBlankIdentifierWith returns a signature where all blank and unnamed parameters are given names.
 // The given prefix is used to rename.
 func RenameBlankIdentifierWith(sig *types.Signature, prefix string) *types.Signature {
+	return RenameClashingIdentifierWith(sig, prefix)
+}
+
+// RenameClashingIdentifierWith returns a signature where all blank and unnamed parameters are given names
+// and so are all parameters that have the name of a variable in one of the given tuples.
+// This is for a generated function that declares the parameters of the signature and the given variables in one list.
+// The given prefix is used to rename and the new names differ from the names of the given variables and of the signature's results.
+func RenameClashingIdentifierWith(sig *types.Signature, prefix string, others ...*types.Tuple) *types.Signature {
 	params := sig.Params()
-	if !hasBlankIdentifier(params) {
+	taken := append([]*types.Tuple{sig.Results()}, others...)
+	if !hasBlankIdentifier(params) && !hasUsedIdentifier(params, taken) {
 		return sig
 	}
-	renamedTuple := rename(params, prefix)
+	renamedTuple := rename(params, prefix, taken)
 	return types.NewSignature(sig.Recv(), renamedTuple, sig.Results(), sig.Variadic())
 }
 
@@ -74,12 +83,23 @@ func isUsed(name string, tuples []*types.Tuple) bool {
 	return false
 }
 
-func rename(tup *types.Tuple, prefix string) *types.Tuple {
+func hasUsedIdentifier(tup *types.Tuple, taken []*types.Tuple) bool {
+	for i := 0; i < tup.Len(); i++ {
+		if isUsed(tup.At(i).Name(), taken) {
+			return true
+		}
+	}
+	return false
+}
+
+func rename(tup *types.Tuple, prefix string, taken []*types.Tuple) *types.Tuple {
 	vars := make([]*types.Var, tup.Len())
 	for i := range vars {
 		varValue := tup.At(i)
-		if isBlank(varValue.Name()) || strings.HasPrefix(varValue.Name(), prefix) {
-			varValue = types.NewVar(varValue.Pos(), varValue.Pkg(), prefix+strconv.Itoa(i), varValue.Type())
+		if isBlank(varValue.Name()) || strings.HasPrefix(varValue.Name(), prefix) || isUsed(varValue.Name(), taken) {
+			done := types.NewTuple(vars[:i]...)
+			newName := UnusedName(prefix+strconv.Itoa(i), append([]*types.Tuple{done}, taken...)...)
+			varValue = types.NewVar(varValue.Pos(), varValue.Pkg(), newName, varValue.Type())
 		}
 		vars[i] = varValue
 	}
